@@ -31,6 +31,8 @@ type c16Case struct {
 	// AbsForm varies how that absolute path is written: 1 = the first slash
 	// is escaped, 2 = every slash is escaped, 3 = the first slash is doubled
 	AbsForm int `json:"abs_form,omitempty"`
+	// Neighbours: Match is called with colliding arguments first
+	Neighbours bool `json:"neighbours,omitempty"`
 }
 
 func buildTree(root string, tree []c16Entry) error {
@@ -99,6 +101,18 @@ func checkC16InTree(root string, c c16Case) (skip string, err error) {
 		pat = r + "/" + pat
 	}
 	want, ok := ref.Glob(pat)
+	if c.Neighbours {
+		// calls whose arguments run into Glob's under a careless cache key
+		// (the mode Glob compiles with is Prefix|Suffix = 12)
+		for _, comp := range strings.FieldsFunc(pat, func(r rune) bool { return r == '/' }) {
+			for _, nb := range []struct {
+				p string
+				m pattern.Mode
+			}{{"2" + comp, pattern.Smallest}, {comp, pattern.Prefix | pattern.Smallest}, {comp + "|x", pattern.Suffix | pattern.Largest}, {"12" + comp, 0}} {
+				guard(func() error { pattern.Match([]string{nb.p}, nb.m, "2x"); return nil })
+			}
+		}
+	}
 	var got []string
 	var gerr error
 	if e := guard(func() error { got, gerr = pattern.Glob(pat); return nil }); e != nil {
@@ -145,7 +159,7 @@ func checkC16(c c16Case) error {
 
 func init() { reg("C16", "glob", checkC16) }
 
-var c16Names = []string{"a", "b", "ab", "abc", "a-b", "a.d", ".h", ".hid", "é", "日本", "x*", "q?", "[z]", "a b", "sub", "dir", "d2", "A", "a+", "(p)", "t^", "$v", "{c}", "e|f", "-", "~",
+var c16Names = []string{"a", "b", "ab", "abc", "a-b", "a.d", ".h", ".hid", "é", "日本", "x*", "q?", "[z]", "a b", "sub", "dir", "d2", "A", "a+", "(p)", "t^", "$v", "{c}", "e|f", "-", "~", "a{2}", "aa", "aab", "a{2}b", "x{1,}", "{2}", "b{1,2}c", "bbc",
 	// long names: the pattern made from them by escaping or bracketing every character is longer than NAME_MAX
 	"L" + strings.Repeat("o", 130), strings.Repeat("*", 100), strings.Repeat("ab", 60)}
 
@@ -320,6 +334,10 @@ func TestC16(t *testing.T) {
 				c := c16Case{Tree: tree, Pattern: pat, Abs: rapid.IntRange(0, 7).Draw(rt, "abs") == 0}
 				if c.Abs {
 					c.AbsForm = rapid.SampledFrom([]int{0, 0, 1, 2, 3}).Draw(rt, "abs_form")
+				}
+				c.Neighbours = rapid.IntRange(0, 7).Draw(rt, "neighbours") == 0
+				if c.Neighbours {
+					st.Class("glob_behind_colliding_match_calls")
 				}
 				skip, err := checkC16InTree(root, c)
 				if err != nil {
